@@ -1,5 +1,5 @@
 """property id -> units and reporting metadata (single source for MANIFEST.json)"""
-from units import specificity, best, fragments
+from units import specificity, best, fragments, static_list
 
 A_TABLES = ('compiler::build_dispatch_tables (grouping of classes by applicability mask, strides, recursion order) '
             'and assign_slots / assign_tree_slots / assign_lattice_slots are NOT under contract '
@@ -46,6 +46,18 @@ PROPS = {
         'level_note': 'that cells are in bijection with tuples of class groups and dispatch_table.size() == cells (recursion over std::map) is not under contract',
         'design_ref': 'DESIGN.md section 6 C17',
         'unverified': [A_TABLES, 'cells / concrete_cells products (compiler.hpp:863-890)'],
+        'assumptions': [],
+    },
+    'C18': {
+        'units': [static_list.jobs],
+        'level': 'proof',
+        'technique': 'CBMC contracts over a Skolem heap (unbounded list length) on extracted static_list::push_back / remove / iterator++ / begin / empty; bounded CBMC pool companion incl. clear()',
+        'level_text': 'push_back, remove, begin, ++ and empty (real bodies, extracted each run) are proved for lists of ANY length: the list invariant is '
+                      'assumed at the nodes the loop-free operation can reach plus a Skolem position and re-established for the new sequence, with frame. '
+                      'clear() (a loop over the whole list) and the interplay of all operations are checked on a pool of 5/6 nodes (every list, every order, one operation)',
+        'level_note': 'clear() is bounded only; size() = std::distance is trusted; that the registration objects\' destructors call remove on the right catalog is checked textually only',
+        'design_ref': 'DESIGN.md section 6 C18, 2.7',
+        'unverified': ['class_declaration_aux / method / definition_info constructors and destructors calling push_back / remove (templates)', 'real dlclose timing'],
         'assumptions': [],
     },
 }
